@@ -14,7 +14,7 @@ Bit tests are written with `/` and `%`:  `x & (1<<k) > 0`  is  `x / 2^k % 2 = 1`
 slice literal has 4 elements, so it cannot panic (`maskBit` is total over `tac % 4`).
 -/
 namespace Tetro.Model.Timer
-open Tetro.Timer (Write Obs)
+open Tetro.Timer (Write Obs Call)
 
 structure T where
   counter     : Nat    -- uint16
@@ -127,11 +127,6 @@ def applyWrite (t : T) : Write → T
   | .tac v => writeTAC t v
 
 /-- free alphabet: single API calls in any order (what the harness can do) -/
-inductive Call where
-  | tick
-  | write (w : Write)
-deriving DecidableEq, Repr
-
 def call (t : T) : Call → T
   | .tick => endCycle t
   | .write w => applyWrite t w
